@@ -670,6 +670,29 @@ Proof. exists nodemgmt_feat. repeat split. Qed.
 Lemma find_app_first {A} (P : A -> bool) l l' x : find P l = Some x -> find P (l ++ l') = Some x.
 Proof. induction l as [|y l IH]; [discriminate|]. cbn. destruct (P y); [auto | apply IH]. Qed.
 
+Lemma nm_ok_inbound v s p d : nm_ok s -> nm_ok (fst (inbound_v v s p d)).
+Proof.
+  intros Hnm. unfold inbound_v. destruct (find_peer s p) as [pe|]; [|exact Hnm].
+  eapply nm_ok_sig; [|exact Hnm]. symmetry. apply sig_process_cmd.
+Qed.
+
+Lemma nm_ok_add_resp_cb s e f c cb : nm_ok s -> nm_ok (fst (add_resp_cb s e f c cb)).
+Proof.
+  intros Hnm. unfold add_resp_cb. destruct (find_lfeat s e (Some f)) as [lf|]; [|exact Hnm]. destruct (memN _ _); [exact Hnm|].
+  cbn [fst]. eapply nm_ok_sig; [|exact Hnm]. symmetry. apply sig_upd_lfeat. intros x. reflexivity.
+Qed.
+
+Lemma nm_ok_run_evs v d l : forall s, nm_ok s -> nm_ok (fst (run_evs v s d l)).
+Proof.
+  induction l as [|e r IH]; intros s Hnm; [exact Hnm|]. cbn [run_evs].
+  assert (H1 : nm_ok (fst (run_ev v s d e))).
+  { destruct e; cbn [run_ev]; [apply nm_ok_inbound; exact Hnm|].
+    unfold late_reg. destruct (d_ref d); [|exact Hnm]. destruct (fa_feat (d_dst d)); [|exact Hnm].
+    apply nm_ok_add_resp_cb. exact Hnm. }
+  destruct (run_ev v s d e) as [s1 o1]. cbn [fst] in H1. specialize (IH s1 H1).
+  destruct (run_evs v s1 d r) as [s2 o2]. exact IH.
+Qed.
+
 Lemma nm_ok_step v s o : nm_ok s -> nm_ok (fst (step_v v s o)).
 Proof.
   intros Hnm. destruct o; cbn [step_v].
@@ -684,17 +707,24 @@ Proof.
   - destruct (find_lfeat s e (Some f)); exact Hnm.
   - cbn [fst]. eapply nm_ok_sig; [|exact Hnm]. unfold disconnect. destruct (find_peer s p); reflexivity.
   - cbn [fst]. eapply nm_ok_sig; [|exact Hnm]. unfold disconnect. destruct (find_peer s p); reflexivity.
-  - destruct (find_peer s p) as [pe|]; [|exact Hnm]. eapply nm_ok_sig; [|exact Hnm]. symmetry. apply sig_process_cmd.
-  - destruct (find_lfeat s e (Some f)) as [lf|]; [|exact Hnm]. destruct (memN _ _); [exact Hnm|].
-    cbn [fst]. eapply nm_ok_sig; [|exact Hnm]. symmetry. apply sig_upd_lfeat. intros x. reflexivity.
+  - apply (nm_ok_inbound v s p d Hnm).
+  - apply (nm_ok_add_resp_cb s e f ctr cb Hnm).
   - destruct (find_lfeat s e (Some f)) as [lf|]; [|exact Hnm].
     cbn [fst]. eapply nm_ok_sig; [|exact Hnm]. symmetry. apply sig_upd_lfeat. intros x. reflexivity.
   - exact Hnm.
+  - pose proof (nm_ok_run_evs v d (par_events ps late pf) s Hnm) as H.
+    destruct (run_evs v s d (par_events ps late pf)) as [s1 out]. exact H.
 Qed.
 
 (* ------------------------------------------------------------------ whole histories *)
 Lemma no_response_retn l : existsb is_response (map ORetN l) = false.
 Proof. induction l as [|x l IH]; [reflexivity | exact IH]. Qed.
+
+Lemma no_response_par_obs out : existsb is_response (par_obs out) = false.
+Proof.
+  induction out as [|o out IH]; [reflexivity|]. unfold par_obs. cbn [flat_map]. rewrite existsb_app. fold (par_obs out). rewrite IH.
+  destruct o; reflexivity.
+Qed.
 
 Lemma mon_step_ok s o : nm_ok s -> snd (mon {| w := s |} o (snd (step s o))) = [].
 Proof.
@@ -715,6 +745,7 @@ Proof.
   - destruct (find_lfeat s e (Some f)); [destruct (memN _ _)|]; reflexivity.
   - destruct (find_lfeat s e (Some f)); reflexivity.
   - cbn [snd]. rewrite existsb_app, no_response_retn. destruct (N.eqb t T_GENERIC); reflexivity.
+  - destruct (run_evs repaired s d (par_events ps late pf)) as [s1 out]. cbn [snd]. rewrite no_response_par_obs. reflexivity.
 Qed.
 
 Lemma run_accepted_from ops : forall s, nm_ok s -> accepted_trace (judge {| w := s |} (snd (run s ops))) = true.
